@@ -82,6 +82,7 @@ func zz4Classify(err error) int {
 // zz4Build creates a log of n entries.  tamper: 0 none, 1 extra parent,
 // 2 garbage commit, 3 arbitrary number -- applied at position tpos.
 func zz4Build(n int, legacy int, tamper int, tpos int) (*zzmem.Store, []zz4E) {
+	newRSLCache() // the process-wide entry cache must not carry entries of an earlier (native) run
 	store := zzmem.New(4)
 	empty := store.RawEmptyTree()
 	log := make([]zz4E, n)
